@@ -50,3 +50,41 @@ wait:
 	}
 	return true, false
 }
+
+// Merge adds the observations of a into o (evaluations, signatures, violations, inconclusives, counters).
+func (o *Obs) Merge(a Obs) {
+	o.Evals += a.Evals
+	o.Sigs = append(o.Sigs, a.Sigs...)
+	o.Violations = append(o.Violations, a.Violations...)
+	o.Inconclusive = append(o.Inconclusive, a.Inconclusive...)
+	for k, v := range a.Counters {
+		o.Count(k, v)
+	}
+	if a.Sample != nil && o.Sample == nil {
+		o.Sample = a.Sample
+	}
+	o.Poisoned = o.Poisoned || a.Poisoned
+}
+
+// Parallel runs f from `workers` goroutines at once, each with an observation record of its own, and
+// merges the records into o afterwards. For properties of the form "for every input ..." that must
+// also hold when several independent instances (sessions, codecs, messages) of one program are at
+// work simultaneously: state shared behind the API (pools, scratch buffers, caches) shows as a wrong
+// result of one of the instances. A panic of f is recorded as a violation of that goroutine's record.
+func Parallel(o *Obs, workers int, f func(g int, o *Obs)) {
+	parts := make([]Obs, workers)
+	done := make(chan struct{}, workers)
+	for g := 0; g < workers; g++ {
+		go func() {
+			defer func() { done <- struct{}{} }()
+			Guard(&parts[g], func() { f(g, &parts[g]) })
+		}()
+	}
+	for g := 0; g < workers; g++ {
+		<-done
+	}
+	for _, a := range parts {
+		o.Merge(a)
+	}
+	o.Count("parallel_batches", 1)
+}
